@@ -185,7 +185,7 @@ func (s *Solver) define(tt *Terms, t *Term) {
 			if d, ok := tt.UFs[cur.Name]; ok && len(d.Args) == 0 {
 				// nullary UF = plain constant
 			}
-			s.send(fmt.Sprintf("(declare-fun %s () %s)", symName(cur.Name), cur.S))
+			s.send(fmt.Sprintf("(declare-fun %s () %s)", cur.leafString(), cur.S))
 		case OUF:
 			if !s.declUF[cur.Name] {
 				d := tt.UFs[cur.Name]
@@ -331,6 +331,9 @@ func (s *Solver) Values(syms []*Term) (map[string]*big.Int, error) {
 			continue
 		}
 		name := strings.TrimPrefix(strings.Trim(pair.kids[0].atom, "|"), "v.")
+		if i := strings.LastIndex(name, "~"); i >= 0 {
+			name = name[:i]
+		}
 		v := sexpValue(pair.kids[1])
 		if v != nil {
 			res[name] = v
